@@ -41,7 +41,11 @@ STAT = Counter()   # how often the property's predicate was actually evaluated, 
 DELIMS = [" ", ",", ";", "|", "\t"]
 # "any delimiter that cannot occur in a label": delimiters of more than one character (outside the Lean model, which is
 # per character: the predicate alone decides these)
-MULTI_DELIMS = [", ", "::", "||", "\t ", " ; ", "-->"]
+MULTI_DELIMS = [", ", "::", "||", "\t ", " ; ", "-->", "§§"]
+# single characters that stress the readers' other arguments: the default comment token itself (readable only with another
+# comment token or none: a reader that ignores `comments` cuts every line at the first delimiter) and a non-ASCII character
+# (written and read through `encoding`: a writer or reader that ignores it produces / expects other bytes)
+EXTRA_DELIMS = ["#", "§"]
 COMMENT_TOKENS = ["#", "#", "%", "//", None]
 # only ASCII-compatible encodings without a byte-order mark: the writers encode and the readers decode line by line
 ENCODINGS = ["utf-8", "latin-1", "cp1252", "ascii"]
@@ -436,7 +440,7 @@ def ev_edgelist(case, tmp):
     ekw = {"encoding": enc} if "encoding" in case else {}
     U = using_of(case)
     ukw = {"create_using": U} if case.get("using") else {}
-    if "encoding" in case and not encodable([x for ms in members for x in ms], enc):
+    if "encoding" in case and not encodable([x for ms in members for x in ms] + [case["delim"]], enc):
         enc, ekw = "utf-8", {}
     xgi.write_edgelist(H, p, delimiter=case["delim"], **ekw)
     text = case.get("text") if case.get("text") is not None else read_text(p, enc)
@@ -481,7 +485,7 @@ def ev_bipartite(case, tmp):
     ekw = {"encoding": enc} if "encoding" in case else {}
     U = using_of(case)
     ukw = {"create_using": U} if case.get("using") else {}
-    if "encoding" in case and not encodable([x for e, ms in edges for x in [e] + ms], enc):
+    if "encoding" in case and not encodable([x for e, ms in edges for x in [e] + ms] + [case["delim"]], enc):
         enc, ekw = "utf-8", {}
     xgi.write_bipartite_edgelist(H, p, delimiter=case["delim"], **ekw)
     text = case.get("text") if case.get("text") is not None else read_text(p, enc)
@@ -536,6 +540,8 @@ def ev_incidence(case, tmp):
     ekw = {"encoding": enc} if "encoding" in case else {}
     U = using_of(case)
     ukw = {"create_using": U} if case.get("using") else {}
+    if "encoding" in case and not encodable([case["delim"]], enc):
+        enc, ekw = "utf-8", {}
     if case.get("text") is None:
         xgi.write_incidence_matrix(H, p, delimiter=case["delim"], **ekw)
         text = read_text(p, enc)
@@ -600,10 +606,14 @@ def ev_collection(case, tmp):
     arg = Hs if names is None else dict(zip(names, Hs))
     cname = case.get("cname", "c")
     keys = [str(i) for i in range(len(Hs))] if names is None else [str(x) for x in names]
+    nty, ety = case.get("nodetype"), case.get("edgetype")
     # the files of a collection: "<name>_<member>.json" + "<name>_collection_information.json"; write_json without a
     # collection name writes "<member>.json" + "collection_information.json"
     prefix = (cname + "_") if (cname or kind == "hifcoll") else ""
     expect = sorted([f"{prefix}{k}.json" for k in keys] + [f"{prefix}collection_information.json"])
+    # an older collection of the same name is already there: every file must be replaced, not appended to
+    for name in expect:
+        write_text(os.path.join(d, name), '{"datasets": {"stale": {"relative-path": "stale.json"}}, "type": "collection", "stale": [1, 2, 3]}\n')
     fails = []
     try:
         if kind == "hifcoll":
@@ -629,9 +639,14 @@ def ev_collection(case, tmp):
     STAT["predicate:" + kind + (":list" if names is None else ":dict") + (":unnamed" if not cname else "")] += 1
     if not isinstance(R, dict) or sorted(R.keys()) != sorted(keys):
         return fails + [("collection-keys", f"wrote members {keys} read {sorted(R.keys()) if isinstance(R, dict) else type(R).__name__}")], None, None
-    for k, H in zip(keys, Hs):
-        for c, det in same_network(snap(H), snap(R[k])):
-            fails.append((f"collection-member-{c}:" + type(H).__name__, f"member {k}: {det}"))
+    for k, H, net in zip(keys, Hs, nets):
+        want = snap(H)
+        if case.get("real_cast"):
+            # casts that change the IDs, through read_hif_collection: the same network under the cast IDs
+            want = snap(build_net(relabel_net(net, TY[nty] or (lambda x: x), TY[ety] or (lambda x: x))))
+            STAT["predicate:" + kind + ":real-cast"] += 1
+        for c, det in same_network(want, snap(R[k])):
+            fails.append((f"collection-member-{c}:" + type(H).__name__, f"member {k} (nodetype={nty}, edgetype={ety}): {det}"))
     return fails, None, None
 
 
@@ -724,6 +739,16 @@ def option_axis(rng, case):
         case["using"] = rng.choice(["class", "instance", "used-instance"])
 
 
+def fit_options(rng, case):
+    """keep a generated case inside the statement's domain: a delimiter containing '#' needs another comment token, and
+    the delimiter must be representable in the chosen encoding"""
+    d = case["delim"]
+    if "#" in d and "#" in (case.get("comments", "#") or ""):
+        case["comments"] = rng.choice([None, "%", "//"])
+    if "encoding" in case and not encodable([d], case["encoding"]):
+        del case["encoding"]
+
+
 def text_cases(rng, n, fmt):
     out = []
     for _ in range(n):
@@ -732,12 +757,13 @@ def text_cases(rng, n, fmt):
         ekind = rng.choice(["int", "int", "str", "odd"]) if fmt == "bipartite" else "int"
         net = gen_net(rng, "Hypergraph", node_kind=kind, edge_kind=ekind, attrs=False, empty_edges=rng.random() < 0.15,
                       isolated=rng.random() < 0.3)
-        d = rng.choice(MULTI_DELIMS) if rng.random() < 0.3 else rng.choice(DELIMS)
+        d = rng.choice(MULTI_DELIMS) if rng.random() < 0.3 else rng.choice(DELIMS + EXTRA_DELIMS)
         rd = d if rng.random() < 0.85 else (None if d.isspace() and rng.random() < 0.8 else rng.choice(DELIMS + [None]))
         nk = {"int": "int", "str": rng.choice([None, "str"]), "odd": rng.choice([None, "str"]), "mixed": None}
         nty = nk[kind] if rng.random() < 0.85 else rng.choice([None, "int", "str"])
         case = {"fmt": fmt, "net": net, "delim": d, "rdelim": rd, "nodetype": nty}
         option_axis(rng, case)
+        fit_options(rng, case)
         if fmt == "bipartite":
             case["edgetype"] = nk[ekind] if rng.random() < 0.85 else rng.choice([None, "int", "str"])
             case["dual"] = rng.random() < 0.4
@@ -759,10 +785,11 @@ def incidence_cases(rng, n):
             net = gen_net(rng, "Hypergraph", attrs=False, empty_edges=rng.random() < 0.3)
         if not net["edges"]:
             net["edges"] = [[0, [net["nodes"][0][0]], {}]]
-        d = rng.choice(MULTI_DELIMS) if rng.random() < 0.3 else rng.choice(DELIMS)
+        d = rng.choice(MULTI_DELIMS) if rng.random() < 0.3 else rng.choice(DELIMS + EXTRA_DELIMS)
         rd = d if rng.random() < 0.8 else (None if d.isspace() else rng.choice(DELIMS))
         case = {"fmt": "incidence", "net": net, "delim": d, "rdelim": rd}
         option_axis(rng, case)
+        fit_options(rng, case)
         out.append(case)
     return out
 
@@ -863,6 +890,15 @@ def collection_cases(rng, n):
             k = rng.randint(1, 3)
             nets = [gen_net(rng, rng.choice(["Hypergraph", "DiHypergraph", "SimplicialComplex"])) for _ in range(k)]
             case = {"fmt": "hifcoll", "nets": nets}
+            if rng.random() < 0.5:
+                # nodetype / edgetype through read_hif_collection, casts that change the IDs and differ between nodes and edges
+                nets = [gen_net(rng, rng.choice(["Hypergraph", "DiHypergraph"]), node_kind="int", edge_kind="int") for _ in range(k)]
+                if rng.random() < 0.5:
+                    nty, ety = rng.choice([("str", None), (None, "str"), ("str", "str")])
+                else:
+                    nets = [relabel_net(n, str, str) for n in nets]
+                    nty, ety = rng.choice([("int", None), (None, "int"), ("int", "int")])
+                case = {"fmt": "hifcoll", "nets": nets, "nodetype": nty, "edgetype": ety, "real_cast": True}
         else:
             k = rng.randint(1, 3)
             nk, ek = rng.choice(["int", "str"]), rng.choice(["int", "str"])
@@ -1018,7 +1054,7 @@ def all_cases(ctx, rng, scale):
     cases += text_cases(rng, 45 * scale, "bipartite")
     cases += incidence_cases(rng, 30 * scale)
     cases += handmade_cases(rng, 30 * scale)
-    cases += collection_cases(rng, 6 * scale)
+    cases += collection_cases(rng, 8 * scale)
     return cases
 
 
@@ -1030,10 +1066,12 @@ def run(ctx):
                 "(nested lists/dicts, None, bools, ints, floats, unicode) whose KEYS include the parameter names node / idx / members / attr / "
                 "edge / n / self; each is really written to a temporary directory and read back: HIF x 3 classes (+ identity casts, + casts "
                 "that change the IDs: digit strings -> int, int -> str), JSON with nodetype/edgetype (+ such casts), edge list / bipartite "
-                "edge list (dual) / incidence matrix x delimiters ' ' ',' ';' '|' '\\t' and the multi-character ones ', ' '::' '||' '\\t ' "
-                "' ; ' '-->' (+ delimiter=None) x casts {None,int,str} x comments {'#','%','//',None} x encoding {utf-8, latin-1, cp1252, "
+                "edge list (dual) / incidence matrix x delimiters ' ' ',' ';' '|' '\\t', the default comment token '#' itself (then read with "
+                "comments None / '%' / '//'), the non-ASCII '\u00a7' (through encoding=) and the multi-character ones ', ' '::' '||' '\\t ' "
+                "' ; ' '-->' '\u00a7\u00a7' (+ delimiter=None) x casts {None,int,str} x comments {'#','%','//',None} x encoding {utf-8, latin-1, cp1252, "
                 "ascii} x create_using {None, class, fresh instance, instance with content}, 1xm / nx1 / 1x1 matrices, collections (list and "
-                "dict, int / str / unicode member names, collection_name '' / 'c' / 'data set' / 'a_b' / 'tail_'; file names checked), "
+                "dict, int / str / unicode member names, collection_name '' / 'c' / 'data set' / 'a_b' / 'tail_'; file names checked; written over "
+                "stale files of the same names; read_hif_collection with nodetype / edgetype casts that change the IDs), "
                 "hand-made files (comments, blank lines, padding, short lines, bad casts, ragged rows).  evaluations = write+read round "
                 "trips; non-trivial = distinct case whose network has an edge with >= 2 members")
     tmp = tempfile.mkdtemp(prefix="xgi-c11-")
